@@ -5,15 +5,24 @@
 #define VP_RT_H
 #include <stdint.h>
 #include <stddef.h>
+#ifdef VP_UNIT
+/* translated units declare every external function themselves (with char* pointers); keep libc headers out */
+void* malloc(size_t); void free(void*); void* memcpy(void*, const void*, size_t); void* memmove(void*, const void*, size_t);
+void* memset(void*, int, size_t); int memcmp(const void*, const void*, size_t); size_t strlen(const char*); void abort(void);
+double round(double); double log2(double); double fabs(double);
+int bcmp(const void*, const void*, size_t); void* memchr(const void*, int, size_t); int strcmp(const char*, const char*);
+#else
 #include <string.h>
 #include <stdlib.h>
+#endif
 extern int __vp_exc; extern char* __vp_exc_obj; extern char* __vp_exc_ti;
 #ifdef VP_NATIVE
 void vp_native_model_assert(int c, const char* m);
 void vp_native_assert(int c, const char* m);
 void vp_native_assume(int c);
+void vp_native_model_assume(int c);
 #define __CPROVER_assert(c, m) vp_native_model_assert(!!(c), m)
-#define __CPROVER_assume(c) vp_native_assume(!!(c))
+#define __CPROVER_assume(c) vp_native_model_assume(!!(c))
 #define VP_ASSERT(c, m) vp_native_assert(!!(c), m)
 #else
 #define VP_ASSERT(c, m) __CPROVER_assert(c, m)
